@@ -169,7 +169,7 @@ def run(tier, seed):
                 nested("raw-pitch<=raw-chroma", lambda: mel.raw_pitch_accuracy(*v, cent_tolerance=tol),
                        lambda: mel.raw_chroma_accuracy(*v, cent_tolerance=tol), {"ref_freq": rf.tolist(), "est_freq": ef.tolist(), "tol": tol})
         # multipitch
-        mt, mrf, met, mef = gen.gen_multipitch(rng, rng.choice(["random", "random", "duplicates"]))
+        mt, mrf, met, mef = gen.gen_multipitch(rng, rng.choice(["random", "random", "duplicates", "octaves"]))
         mono("multipitch.metrics", mp.metrics, (mt, mrf, met, mef), "window", [0.25, 0.5, 0.74, 1.0, 2.5])
         for w in (0.5, 1.0):
             r = call(mp.metrics, mt, mrf, met, mef, window=w)
